@@ -74,6 +74,10 @@ func runRT(run *harness.Run, scenario string, cases, perChild, parallel int) *rt
 			cmd := exec.Command("timeout", "-s", "QUIT", strconv.Itoa(secs), bin, "__rt", scenario, strconv.FormatInt(run.Seed, 10), strconv.Itoa(j.from), strconv.Itoa(j.to))
 			cmd.Stdout, cmd.Stderr = f, f
 			cmd.Env = append(os.Environ(), "GORACE=halt_on_error=0 log_path="+racef)
+			// scheduling diversity: children alternate between all cores, 4, 2 and a single processor
+			if gmp := []string{"", "4", "2", "1"}[(j.from/perChild)%4]; gmp != "" {
+				cmd.Env = append(cmd.Env, "GOMAXPROCS="+gmp)
+			}
 			err := cmd.Run()
 			f.Close()
 			mu.Lock()
